@@ -116,6 +116,34 @@ var (
 	bisectBudget = 12 // per worker process
 )
 
+func findTimeouts(mods []Parsed, timeout time.Duration) []Failure {
+	var mu sync.Mutex
+	var res []Failure
+	sem := make(chan struct{}, 16)
+	var wg sync.WaitGroup
+	for _, p := range mods {
+		wg.Add(1)
+		sem <- struct{}{}
+		go func(p Parsed) {
+			defer wg.Done()
+			defer func() { <-sem }()
+			o := LintBatch([]Parsed{p}, timeout)
+			if o.Err != "" {
+				k := FailureKey(o.Err)
+				if o.Timeout {
+					k = "timeout: linting one module exceeds the per-call limit"
+				}
+				mu.Lock()
+				res = append(res, Failure{Key: k, Modules: []Module{p.Module}, Err: o.Err, Timeout: o.Timeout})
+				mu.Unlock()
+			}
+		}(p)
+	}
+	wg.Wait()
+	sort.Slice(res, func(i, j int) bool { return res[i].Modules[0].Name < res[j].Modules[0].Name })
+	return res
+}
+
 func takeBisectBudget() bool {
 	minimisedMu.Lock()
 	defer minimisedMu.Unlock()
@@ -186,6 +214,37 @@ func runBatch(idx int, mods []Module, job *Job) BatchResult {
 		res.Lints++
 		if out.Err == "" {
 			break
+		}
+		if out.Timeout {
+			// bisecting a hang costs one full time limit per step: lint every module on its own instead,
+			// 16 at a time (the healthy ones finish in well under a second)
+			culprits := findTimeouts(parsed, timeout)
+			res.Lints += len(parsed)
+			bad := map[string]bool{}
+			for _, c := range culprits {
+				res.Failures = append(res.Failures, c)
+				for _, m := range c.Modules {
+					bad[m.Name] = true
+				}
+			}
+			if len(culprits) == 0 {
+				fl := Failure{Key: "timeout: batch exceeded the per-call limit, no single module does", Err: out.Err, Timeout: true}
+				for _, p := range parsed {
+					fl.Modules = append(fl.Modules, p.Module)
+				}
+				res.Failures = append(res.Failures, fl)
+				parsed = nil
+				out = Outcome{}
+				break
+			}
+			var rest []Parsed
+			for _, p := range parsed {
+				if !bad[p.Name] {
+					rest = append(rest, p)
+				}
+			}
+			parsed = rest
+			continue
 		}
 		// when a change breaks linting wholesale, bisecting every batch would take hours: after a few
 		// culprits with minimised witnesses the remaining failing batches are recorded as they are
@@ -306,6 +365,7 @@ func runBatch(idx int, mods []Module, job *Job) BatchResult {
 // crash are appended as single-module batches).
 func RunMaster(self, tmp string, job *Job, watchdog time.Duration) []BatchResult {
 	results := map[int]BatchResult{}
+	crashFailures := 0
 	todo := make([]int, len(job.Batches))
 	for i := range todo {
 		todo[i] = i
@@ -313,8 +373,12 @@ func RunMaster(self, tmp string, job *Job, watchdog time.Duration) []BatchResult
 	round := 0
 	for len(todo) > 0 {
 		round++
-		if round > 200 {
-			panic("too many worker restarts")
+		if crashFailures >= 6 || round > 400 {
+			// the code under test crashes wholesale: enough witnesses, the remaining batches are not run
+			for _, i := range todo {
+				results[i] = BatchResult{Batch: i, N: 0, Crash: "not run: too many worker crashes in this run"}
+			}
+			break
 		}
 		jp := filepath.Join(tmp, fmt.Sprintf("job_%d.json", round))
 		op := filepath.Join(tmp, fmt.Sprintf("out_%d.jsonl", round))
@@ -390,6 +454,7 @@ func RunMaster(self, tmp string, job *Job, watchdog time.Duration) []BatchResult
 			// the worker died (or was killed) while this batch was in flight
 			b := job.Batches[i]
 			if len(b) == 1 && len(inf) == 1 {
+				crashFailures++
 				results[i] = BatchResult{Batch: i, N: 1, Crash: why,
 					Failures: []Failure{{Key: FailureKey(why), Modules: b, Err: why, Timeout: killed}}}
 			} else if len(b) == 1 {
